@@ -16,6 +16,10 @@ import (
 var (
 	// MaxVariantArrayLength sets a limit on the number of elements in array
 	MaxVariantArrayLength = 0xffff
+
+	// MaxNestingDepth sets a limit on the nesting of Variant, DataValue
+	// and DiagnosticInfo values inside of each other.
+	MaxNestingDepth = 100
 )
 
 const (
@@ -117,6 +121,14 @@ func (m *Variant) Value() interface{} {
 
 // Decode implements the codec interface.
 func (m *Variant) Decode(b []byte) (int, error) {
+	return m.decode(b, 0)
+}
+
+// decode decodes a variant which is nested depth levels deep.
+func (m *Variant) decode(b []byte, depth int) (int, error) {
+	if depth > MaxNestingDepth {
+		return 0, StatusBadEncodingLimitsExceeded
+	}
 	buf := NewBuffer(b)
 	m.mask = buf.ReadByte()
 
@@ -133,7 +145,7 @@ func (m *Variant) Decode(b []byte) (int, error) {
 
 	// read single value and return
 	if !m.Has(VariantArrayValues) {
-		m.value = m.decodeValue(buf)
+		m.value = m.decodeValue(buf, depth)
 		return buf.Pos(), buf.Error()
 	}
 
@@ -169,7 +181,7 @@ func (m *Variant) Decode(b []byte) (int, error) {
 	default:
 		vals = reflect.MakeSlice(sliceType, n, n)
 		for i := 0; i < n; i++ {
-			vals.Index(i).Set(reflect.ValueOf(m.decodeValue(buf)))
+			vals.Index(i).Set(reflect.ValueOf(m.decodeValue(buf, depth)))
 		}
 	}
 
@@ -268,7 +280,7 @@ func split(level, i, j int, dims []int, vals reflect.Value) reflect.Value {
 }
 
 // decodeValue reads a single value of the base type from the buffer.
-func (m *Variant) decodeValue(buf *Buffer) interface{} {
+func (m *Variant) decodeValue(buf *Buffer, depth int) interface{} {
 	switch m.Type() {
 	case TypeIDBoolean:
 		return buf.ReadBool()
@@ -328,17 +340,15 @@ func (m *Variant) decodeValue(buf *Buffer) interface{} {
 		return v
 	case TypeIDDataValue:
 		v := new(DataValue)
-		buf.ReadStruct(v)
+		buf.readNested(func(b []byte) (int, error) { return v.decode(b, depth+1) })
 		return v
 	case TypeIDVariant:
-		// todo(fs): limit recursion depth to 100
 		v := new(Variant)
-		buf.ReadStruct(v)
+		buf.readNested(func(b []byte) (int, error) { return v.decode(b, depth+1) })
 		return v
 	case TypeIDDiagnosticInfo:
-		// todo(fs): limit recursion depth to 100
 		v := new(DiagnosticInfo)
-		buf.ReadStruct(v)
+		buf.readNested(func(b []byte) (int, error) { return v.decode(b, depth+1) })
 		return v
 	default:
 		return nil
